@@ -123,6 +123,29 @@ def run(ctx):
             b = [ctx.rng.randint(0, 9) for _ in range(ctx.rng.randint(1, 14))]
             sessions.append(dict(sid=sid, kind="sets", n=a, m=b))
     out = estim.evaluate(ctx, sessions, invariants=("ChaoNotBelowObserved", "OverlapSymmetric"))
+    # repertoire-sized f1, f2 with arbitrary ratio: the specification evaluates the closed forms in arbitrary precision (BigInt.tla)
+    big = []
+    for r in range(6 if q else 60):
+        f1 = ctx.rng.choice([3, 977, 46341, 65536, 123457, 2000003, 30000001])
+        f2 = ctx.rng.choice([1, 2, 7, 1291, 46341, 99991, 1500007])
+        big.append(dict(sid=6000 + r, kind="bigfof", n=[f1, f2] + [ctx.rng.randint(0, 5000) for _ in range(ctx.rng.randint(0, 3))], m=[]))
+    bout = estim.evaluate(ctx, big)
+    import pyrepseq as prs
+    for s in big:
+        ctx.traces += 1
+        n = s["n"]
+        ctx.case(dict(kind="sampled:bigfof", n=n), nontrivial=True)
+        rp = dict(kind="bigfof", session=s)
+        for name, fn, key in (("chao1", lambda a: prs.chao1(a), "chao1"), ("var_chao1", lambda a: prs.var_chao1(a), "var"),
+                              ("chao2", lambda a: prs.chao2(a, 7), "chao2"), ("var_chao2", lambda a: prs.var_chao2(a, 7), "var")):
+            for form, arr in (("list", list(n)), ("ndarray", np.array(n)), ("int32", np.array(n, dtype=np.int32))):
+                try:
+                    got = float(fn(arr))
+                except Exception as e:      # noqa: BLE001
+                    ctx.violation(f"{name}/{form}/large-counts/raised", f"{name}({form} {n}) raised {type(e).__name__}: {e}"[:300], rp)
+                    continue
+                if not estim.close_big(got, bout[s["sid"]][key]):
+                    ctx.violation(f"{name}/{form}/large-counts/wrong_value", f"{name}({form} {n}) = {got!r} want {float(estim.big_fraction(bout[s['sid']][key]))!r}"[:300], rp)
     vals9 = [f"s{i}" for i in range(1, 10)]
     for s in sessions:
         ctx.traces += 1
